@@ -37,7 +37,7 @@ class C03(Property):
             out.append(bytes([0x80 | (i % 3), i % 6]) + t.encode('utf-8'))
         return out
     id = 'C03'
-    configs = ('A',)
+    configs = ('A', 'C', 'D')
     bytes_per_case = 512
     technique = ('property-based robustness testing (Hypothesis): valid programs, every prefix, token/char mutants, token soups, random Unicode, '
                  'size-doubling pathological families x modes x start offsets; oracle = no panic / fuel-bounded loops (hooks) / error offset invariants')
@@ -102,8 +102,8 @@ class C03(Property):
         return c
 
     # ---------------------------------------------------------------- the oracle for one input
-    def check_one(self, text, mode, off, ctx, fails):
-        sut = ctx.sut('A')
+    def check_one(self, text, mode, off, ctx, fails, cfg='A'):
+        sut = ctx.sut(cfg)
         data = text.encode('utf-8')
         n = len(data)
         nchars = len(text)
@@ -118,7 +118,7 @@ class C03(Property):
         bset = None
 
         def bad(sig, **d):
-            fails.append(Failure(sig, text=text, mode=mode, off=off, **d))
+            fails.append(Failure(sig + ('' if cfg == 'A' else ':' + cfg), text=text, mode=mode, off=off, **d))
 
         def check_offset(name, o):
             nonlocal bset
@@ -165,13 +165,23 @@ class C03(Property):
     def check(self, case, ctx):
         fails = []
         k = case['k']
+        # totality holds in every feature configuration: half of the inputs also go through the full-lexer build (comment and
+        # non-logical-newline tokens: other code paths in the lexer and the token filter) or the num-bigint build
+        import zlib
+        other = {0: 'C', 1: 'C', 2: 'D'}.get(zlib.crc32(case.get('text', case.get('name', '')).encode('utf-8')) % 4) if k in ('text', 'prefixes') else None
+        if other:
+            ctx.count('also_in_build_' + other)
         if k == 'text':
             self.check_one(case['text'], case['mode'], case['off'], ctx, fails)
+            if other and not fails:
+                self.check_one(case['text'], case['mode'], case['off'], ctx, fails, cfg=other)
         elif k == 'prefixes':
             text = case['text']
             cut = 0
             for i in range(len(text) + 1):
                 self.check_one(text[:i], case['mode'], case['off'], ctx, fails)
+                if other and not fails:
+                    self.check_one(text[:i], case['mode'], case['off'], ctx, fails, cfg=other)
                 cut += 1
                 if fails:
                     break
